@@ -33,6 +33,10 @@ ENGINE_BUG_RE = _re.compile(
 )
 
 
+def _ref_has_taint(rt):
+    return any(v is ref.TAINT for c in rt.cols.values() for v in c.data)
+
+
 def _has_horizontal(prog):
     return '"op": "hm' in __import__("json").dumps(prog)
 
@@ -266,13 +270,20 @@ def run_program(prog, backends=("pol", "sqlite"), opts=None, be_cache=None) -> O
             exp_exc = None
             try:
                 df = rr.export(h)
-            except Exception as e:
+            except (KeyboardInterrupt, SystemExit):
+                raise
+            except BaseException as e:  # pyo3 PanicException derives from BaseException
                 exp_exc = e
             stm, au = M.SQL.end()
             n_exports += 1
             if exp_exc is not None:
                 cls = type(exp_exc).__name__
                 judged = h in ref_ok
+                if judged and _ref_has_taint(rf.env[h]):
+                    # evaluating a cell the documentation leaves undefined (division by zero, overflow,
+                    # non-finite results, ...) may legitimately raise inside the engine
+                    out.excluded[be] = "D3:engine error on undefined data"
+                    continue
                 if be == "pol" and ENGINE_BUG_RE.search(str(exp_exc)) and _has_horizontal(prog):
                     # D16: a Polars optimizer bug (reproduced without pydiverse.transform, correct with
                     # optimizations off): horizontal min/max with a literal over join-padded columns
